@@ -273,3 +273,16 @@ def run(ctx: Ctx):
                               theorem="Ladim.C02.sampleVel_spec (trilinear_convex, u_exact_linear, landface_zero, scalar_own_cell)"),
                               tags=dict(first=diffs[0][0]))
                 break
+
+    # ---- whole simulations in the dense layout with particles leaving the grid: dead and inactive particles stay in the
+    # arrays in front of living ones; every living particle must still be sampled at its own position and level
+    from harness import scen
+    ne = 40 if ctx.thorough else 10
+    ecases = []
+    for k in range(ne):
+        sc = scen.gen(ctx.seed * 100000 + 2500 + k, layout="dense", kills=bool(k % 2), land=False, speed=2.0, continuous=False,
+                      scheme=["EF", "RK2", "RK4"][k % 3], rev=False, subgrid="none")
+        # the first particle starts next to the open boundary and is carried out early
+        sc["rows"] = [dict(sc["rows"][0], step=0, mult=1, X=float(sc["imax"] - 2.25), Y=float(sc["jmax"] - 2.25), Z=1.0)] + sc["rows"]
+        ecases.append(sc)
+    scen.e2e_stream(ctx, "whole-run-dense", ecases, "Ladim.C02.sampleVel_spec for every living particle of Ladim.Simulation (records_are_spec)")
